@@ -911,7 +911,8 @@ def run_engine(prog, roots, stop, rule_name, clause, table, floor):
                 s.status = "no"
         # stable key: function + kind + operand signature (+ ordinal only for identical signatures)
         s.sig = site_sig(eng, s) if s.status in ("no",) else ""
-        base = "%s|%s|%s" % (s.fn.norm, s.kind, s.sig)
+        # closure ordinals are positional (inserting an unrelated closure renumbers the later ones): not part of the key
+        base = "%s|%s|%s" % (re.sub(r"\{closure#\d+\}", "{closure}", s.fn.norm), s.kind, s.sig)
         o = per_fn_ord.setdefault(base, 0)
         per_fn_ord[base] = o + 1
         s.key = base if o == 0 else "%s#%d" % (base, o)
